@@ -32,7 +32,18 @@ def fr(x):
 
 
 def hstr(h):
-    return f"h{h}"
+    """abstract hash number -> the hash string handed to the code; number 0 is the BLANK string (a hash is
+    any str: nothing in MHCPeptide / BaselineProfile / ThreatSignature restricts it to be non-empty)"""
+    return "" if h == 0 else f"h{h}"
+
+
+# agent number (the model's) -> agent id string.  To ImmuneSystem and ImmuneMemory an id is an opaque
+# key: ids that differ only in case or in outer whitespace are DIFFERENT agents (separately registered,
+# separately trained), like any two other ids.
+AGENT_IDS = ["a", "b", "A", " a", "a ", "\ta\n", "B"]
+NEAR = {0: [2, 3, 4, 5], 1: [6], 2: [0, 3, 4, 5], 3: [0, 2, 4, 5], 4: [0, 2, 3, 5], 5: [0, 2, 3, 4], 6: [1]}
+# outputs without a single word character: the agent timed out (None), returned nothing, or punctuation only
+WORDLESS = [None, "", "...", "?!", "---", "   ", "!!", "\n"]
 
 
 # ---------------------------------------------------------------------------
@@ -237,7 +248,7 @@ class Disp:
 class C17(Check):
     PID = "C17"
     HEADER = "From Verif Require Import C17.Model."
-    RUN = "run_case"
+    RUN = "run_xcase"
     N_QUICK = 1500
     N_THOROUGH = 20000
     RULE = ("one agent under an ImmuneSystem; histories of 1..14 operations (inspect, flag, reset, "
@@ -269,14 +280,29 @@ class C17(Check):
             "skewed clock (< 0), identically 0 - as crafted fingerprints (trained, inspected at once, again under a flag / after "
             "a false-alarm reset, then probed around the learned bounds) and as public-API and window histories with every "
             "recorded observation on that scale; every successful training also shows what the learned baseline finds in the "
-            "window it was learned from. "
+            "window it was learned from; "
+            "round 7 (one extra case in six, from a generator of their own): windows whose usual observations carry outputs "
+            "without a single word character (None = the agent only times out, '', punctuation or whitespace only: empty "
+            "vocabulary, with None / '' only no structure either), trained, inspected at once and under a flag, then drifting "
+            "to worded outputs and back; crafted fingerprints / profiles / memory entries in which a hash is the BLANK string; "
+            "memory entries (store / import / recall) about agents whose ids differ from the watched agent's only in case or "
+            "outer whitespace ('A', ' a', 'a ', tab-a-newline; also 'b' / 'B'), incl. the motif: such an entry carries exactly "
+            "the hashes of an anomaly that is then seen once; histories over 2..3 REGISTERED agents under one ImmuneSystem "
+            "(one shared memory; 80% with two near-identical ids), each trained on its own window through the public API, one "
+            "going bad under a flag / canary failure and being remembered, another going bad the same way (same hashes) for the "
+            "first time, resets, memory maintenance, good stretches, retraining. "
             "Exhaustive: every history of <=3 (quick) / <=4 (thorough) operations over an 8-letter alphabet with thresholds "
             "2/1, and every public-API history of <=5 / <=7 calls (good obs, bad obs, inspect, flag) on a window of size 2 "
             "after training, and every sequence of <=4 / <=5 maintenance operations between a remembered threat and its "
             "reappearance, and every sequence of <=3 / <=4 of mark_agent_updated, add_tolerated_violation, flag, two anomalies "
             "under a recent_update rule (max CRITICAL) and a tolerated-violation rule, and the grid confidence {-2, -5/16, 0, 1, "
             "1.5, 90} x reported deviation {0, 2} x latency {-0.5, 0, 1500} x tolerance {2, 0} trained, inspected, flagged and "
-            "inspected three more times (crafted and through the public API). non-trivial = at least one "
+            "inspected three more times (crafted and through the public API), and 5 wordless output pools x error {None, timeout} "
+            "trained / inspected / flagged / inspected, and a blank vocabulary / structure / both hash trained and inspected 4 times, "
+            "and a stored / imported CONFIRMED entry about each of the 6 other ids with the hashes of the anomaly inspected next, "
+            "and two agents 'a' / 'A' on a window of size 1: every sequence of <=3 / <=5 of (a bad, A bad, A good, inspect a, "
+            "inspect A, flag a, flag A), and for every ordered pair of the 7 ids: y confirmed and remembered, x anomalous the same "
+            "way for the first time, y again, x again. non-trivial = at least one "
             "inspection with a fingerprint that reaches the baseline check; distinct by case content")
     LEVEL_TEXT = ("Coq theorems over all profiles, fingerprints, thresholds, rule sets (arbitrary condition functions), "
                   "memories and operation histories about a hand-written model of BaselineProfile.check, TCell, "
@@ -286,7 +312,10 @@ class C17(Check):
                   "touches CRITICAL (nor lowers twice across memory); the window just trained on is reported clean for every "
                   "monotone rounding, on every scale (features are arbitrary rationals: each learned interval contains the "
                   "window's own value), and stays clean in every later history that does not retrain; every inspection judges the fingerprint of the current window (last window_size "
-                  "observations). The "
+                  "observations); with several agents under one ImmuneSystem (arbitrary world, arbitrary history of calls about "
+                  "any agents) only the agent's own window, own watcher and threats remembered under its own id are signals, calls "
+                  "about other agents leave its display / watcher / record untouched and (other than explicit store / import) add "
+                  "nothing to what is remembered about it. The "
                   "response / can_suppress / downgrade tables are regenerated from the implementation on every run and "
                   "checked against the model inside Coq; the model is evaluated in Coq on every generated history the "
                   "implementation ran.")
@@ -318,6 +347,10 @@ class C17(Check):
         "ToleranceRecord.recent_update reads the wall clock (treg.py is not rebound): modelled as 'mark_updated was called', "
         "i.e. the default update_tolerance_duration of one hour does not elapse within a case; SuppressionRule.duration is "
         "varied and, as in the code, has no effect",
+        "several agents: the model gives agent k the one-agent semantics on its view of the shared memory (its number and 0 "
+        "exchanged in the entries, order kept); hash strings are abstract numbers, 0 = the blank string; the md5 the harness's "
+        "reference fingerprint uses names vocabulary / structure sets (a display reporting other hash strings for the same "
+        "sets shows up as a fingerprint mismatch, reported only when no wrong verdict follows)",
         "read-only accessors and calls about other agents are not model operations; their transparency is checked on the "
         "implementation (state of the agent, its display, the shared memory and configuration before/after) and through "
         "the correspondence of every later observation; exceptions they raise are counted in input_distribution "
@@ -326,7 +359,8 @@ class C17(Check):
     ASSUMPTIONS = [
         "profile bounds and fingerprint features are finite, non-NaN doubles",
         "self-tolerance: Thymus.tolerance >= 0 and canary accuracy >= 0 (a negative tolerance inverts the bounds)",
-        "one agent id; other agents only through their memory entries",
+        "agent ids are opaque keys (7 id strings, among them ids equal up to case / outer whitespace); in histories over "
+        "several agents every id is registered at the start and only the public API + memory maintenance is used",
     ]
 
     # ------------------------------------------------------------------
@@ -415,6 +449,11 @@ class C17(Check):
         {"ol": [50.0, 10.0], "rt": [0.125, 2.0], "cf": [0.5, 1.0], "err": 0.125, "vocab": [1], "structs": [1], "cmin": 0.5},
         {"ol": [10.0, 50.0], "rt": [0.125, 2.0], "cf": [0.5, 1.0], "err": 0.125, "vocab": [], "structs": [1], "cmin": 0.625},
     ]
+
+    # who the memory entries written from outside are about (agent numbers): the agent itself and one
+    # unrelated agent; the generator of near-identical ids (_near_case) widens the pools
+    _ag3 = [0, 0, 1]
+    _ag4 = [0, 0, 0, 1]
 
     def _feature(self, rng, lo, hi, violate):
         import math
@@ -545,7 +584,7 @@ class C17(Check):
         """one memory-maintenance operation (ImmuneMemory's public mutators + the clock)"""
         def other():
             vh, sh = (rng.choice([1, 2, 7, 9]), rng.choice([1, 2, 8, 9])) if hashes is None or rng.random() < 0.7 else hashes
-            return [rng.choice([0, 0, 1]), vh, sh, rng.choice([2, 3, 2, 1]), rng.choice([0, 1, 2, 3])]
+            return [rng.choice(self._ag3), vh, sh, rng.choice([2, 3, 2, 1]), rng.choice([0, 1, 2, 3])]
 
         def types():           # violation_types of a signature from outside (optional last component)
             return [rng.choice([[2], [1, 2], [4, 5], [7], [3, 6], []])] if rng.random() < 0.5 else []
@@ -561,7 +600,7 @@ class C17(Check):
         if k < 0.82:
             return ["touch", other()[:3]]
         if k < 0.88:           # memory.recall(query, partial=True): same agent, a common violation type
-            return ["touchp", [rng.choice([0, 0, 1]), rng.choice([[2], [1, 2], [2, 4], [5, 6, 7], [1, 2, 3, 4, 5, 6, 7], []])]]
+            return ["touchp", [rng.choice(self._ag3), rng.choice([[2], [1, 2], [2, 4], [5, 6, 7], [1, 2, 3, 4, 5, 6, 7], []])]]
         if k < 0.94:
             return ["forget", rng.choice([0, 0, 1, 2])]
         return ["clearmem"]
@@ -635,7 +674,7 @@ class C17(Check):
             elif k < 0.78:
                 ops.append(["resetnc"])
             elif k < 0.85:
-                ops.append(["store", [rng.choice([0, 0, 0, 1]), rng.choice([1, 2, 7, 9]), rng.choice([1, 2, 8, 9]),
+                ops.append(["store", [rng.choice(self._ag4), rng.choice([1, 2, 7, 9]), rng.choice([1, 2, 8, 9]),
                                       rng.choice([2, 3, 2, 3, 1, 0]), rng.choice([0, 1, 2, 3, 4])]])
             elif k < 0.87:
                 ops.append(["forget", rng.choice([0, 0, 1, 2])])
@@ -796,19 +835,7 @@ class C17(Check):
             if k < 0.2:
                 out.append(self._sprinkle(rng, self._window_case(rng)))
                 continue
-            prof = rng.choice(self.PROFILES[:4] + self.PROFILES) if rng.random() < 0.93 else None
-            rep = rng.choice([3, 3, 2, 1, 2, 0, 4])
-            anergy = rng.choice([5, 2, 1, 3, 2, 0] if rng.random() < 0.3 else [5, 2, 1, 3, 2])
-            nn = rng.choice([10, 10, 1, 2, 5, 0, -1] if rng.random() < 0.2 else [10, 1, 2, 5])
-            tol = rng.choice([2.0, 2.0, 0.0, 1.0, 0.5, 3.0, -1.0] if rng.random() < 0.15 else [2.0, 2.0, 0.0, 1.0, 0.5, 3.0])
-            case = {"rules": self._rules(rng), "stab": rng.choice([100, 100, 2, 0, 5]),
-                    "tcell": ({"prof": prof, "rep": rep, "anergy": anergy} if prof is not None else None),
-                    "record": rng.random() < 0.9,
-                    "n": nn, "tmin": rng.choice([None, None, None, nn + 1, 0, 1]),
-                    "tol": tol, "vt": rng.choice([0.5, 0.5, 0.0, -1.0] if rng.random() < 0.2 else [0.5, 0.0]),
-                    "win": [3, 6], "cap": rng.choice([1000, 1000, 1000, 1, 2, 3, 0])}
-            case["ops"] = self._history(rng, prof, rep, anergy, tol)
-            out.append(self._sprinkle(rng, case))
+            out.append(self._sprinkle(rng, self._crafted_case(rng)))
         # windows reported on other scales (percent / log-probability / >1 / negative confidences, millisecond /
         # clock-skewed / zero latencies): the same three kinds of history, one case in eight on top of the n above,
         # drawn from a generator of their own (the cases above are what they were before this class existed)
@@ -816,7 +843,179 @@ class C17(Check):
         rng2 = random.Random(f"C17:scales:{rng.random()}")
         for _ in range(max(24, n // 8)):
             out.append(self._scale_case(rng2))
+        # round 7, again from a generator of their own (one extra case in six): windows without a single word
+        # character, blank hash strings, memory entries about agents with near-identical ids, and histories over
+        # several registered agents sharing one ImmuneSystem
+        rng3 = random.Random(f"C17:round7:{rng.random()}")
+        for i in range(max(36, n // 6)):
+            out.append((self._wordless_case, self._world_case, self._near_case, self._world_case,
+                        self._blank_case, self._world_case)[i % 6](rng3))
         return out
+
+    def _crafted_case(self, rng):
+        prof = rng.choice(self.PROFILES[:4] + self.PROFILES) if rng.random() < 0.93 else None
+        rep = rng.choice([3, 3, 2, 1, 2, 0, 4])
+        anergy = rng.choice([5, 2, 1, 3, 2, 0] if rng.random() < 0.3 else [5, 2, 1, 3, 2])
+        nn = rng.choice([10, 10, 1, 2, 5, 0, -1] if rng.random() < 0.2 else [10, 1, 2, 5])
+        tol = rng.choice([2.0, 2.0, 0.0, 1.0, 0.5, 3.0, -1.0] if rng.random() < 0.15 else [2.0, 2.0, 0.0, 1.0, 0.5, 3.0])
+        case = {"rules": self._rules(rng), "stab": rng.choice([100, 100, 2, 0, 5]),
+                "tcell": ({"prof": prof, "rep": rep, "anergy": anergy} if prof is not None else None),
+                "record": rng.random() < 0.9,
+                "n": nn, "tmin": rng.choice([None, None, None, nn + 1, 0, 1]),
+                "tol": tol, "vt": rng.choice([0.5, 0.5, 0.0, -1.0] if rng.random() < 0.2 else [0.5, 0.0]),
+                "win": [3, 6], "cap": rng.choice([1000, 1000, 1000, 1, 2, 3, 0])}
+        case["ops"] = self._history(rng, prof, rep, anergy, tol)
+        return case
+
+    # ---- round 7 -------------------------------------------------------------------------------------
+    def _wordless_case(self, rng):
+        """a window / public-API history whose usual ("good") observations carry outputs WITHOUT a word
+        character: None (the agent only times out), the empty string, punctuation or whitespace only - the
+        vocabulary of such a window is empty, and with None / '' only there is no structure either"""
+        case = self._api_case(rng) if rng.random() < 0.5 else self._window_case(rng)
+        pool = rng.choice([[None], [""], [None, ""], ["...", "?!", "---", "!!"], ["   ", "\n"], WORDLESS, WORDLESS])
+        usual = set(self.GOOD) | set(o for o in OUTPUTS[:3])
+        ops = []
+        for o in case["ops"]:
+            if o[0] == "w_record" and o[1] in usual:
+                out = rng.choice(pool)
+                o = ["w_record", out, o[2], o[3], ("timeout" if out is None and rng.random() < 0.5 else o[4])]
+            ops.append(o)
+        case["ops"] = ops
+        case["wordless"] = True
+        return self._sprinkle(rng, case)
+
+    @staticmethod
+    def _blank(case, h):
+        """hash number h becomes 0 (the blank hash string) wherever a case mentions hashes"""
+        def z(x):
+            return 0 if x == h else x
+        if case["tcell"]:
+            pr = case["tcell"]["prof"] = dict(case["tcell"]["prof"])
+            pr["vocab"], pr["structs"] = [z(x) for x in pr["vocab"]], [z(x) for x in pr["structs"]]
+        ops = []
+        for o in case["ops"]:
+            if o[0] in ("inspect", "train") and o[1] is not None:
+                o = [o[0], dict(o[1], vh=z(o[1]["vh"]), sh=z(o[1]["sh"]))]
+            elif o[0] == "store":
+                o = [o[0], [o[1][0], z(o[1][1]), z(o[1][2])] + list(o[1][3:])]
+            elif o[0] == "import":
+                o = [o[0], [[it[0], z(it[1]), z(it[2])] + list(it[3:]) for it in o[1]]]
+            elif o[0] == "touch":
+                o = [o[0], [o[1][0], z(o[1][1]), z(o[1][2])]]
+            ops.append(o)
+        case["ops"] = ops
+        return case
+
+    def _blank_case(self, rng):
+        """crafted fingerprints / profiles / memory entries in which one of the hashes is the BLANK string
+        (what a display may report for 'nothing recorded'): half of them start with training on such a window"""
+        if rng.random() < 0.5:
+            case = self._crafted_case(rng)
+        else:
+            prof = rng.choice(self.PROFILES) if rng.random() < 0.5 else None
+            rep, anergy, nn, tol = rng.choice([3, 3, 2, 1]), rng.choice([5, 2, 1]), rng.choice([10, 1, 2, 5]), rng.choice([2.0, 2.0, 0.0, 1.0])
+            case = {"rules": self._rules(rng), "stab": rng.choice([100, 100, 2, 0, 5]),
+                    "tcell": ({"prof": prof, "rep": rep, "anergy": anergy} if prof is not None else None),
+                    "record": rng.random() < 0.9, "n": nn, "tmin": None, "tol": tol, "vt": rng.choice([0.5, 0.0]),
+                    "win": [3, 6], "cap": rng.choice([1000, 1000, 2, 1])}
+            case["ops"] = self._history(rng, prof, rep, anergy, tol, scale=("prob", "s"))
+        case = self._blank(case, rng.choice([1, 1, 2]))
+        case["blank"] = True
+        return self._sprinkle(rng, case)
+
+    def _near_case(self, rng):
+        """one watched agent ("a"); memory entries written from outside (store / import / recall) are about it, about
+        an unrelated agent, or about agents whose ids differ from "a" only in case or outer whitespace ("A", " a",
+        "a ", tab-a-newline); motif: such an entry carries exactly the hashes of an anomaly that is then seen once"""
+        saved = (self._ag3, self._ag4)
+        self._ag3, self._ag4 = [0, 1, 2, 3, 4, 5, 2], [0, 0, 1, 2, 3, 4, 5]
+        try:
+            case = self._crafted_case(rng)
+            prof = case["tcell"]["prof"] if case["tcell"] else None
+            if prof is not None and rng.random() < 0.7:
+                p = self._pep_for(rng, prof, nviol=rng.choice([1, 2, 3]), canary_mode="none")
+                entry = [rng.choice([2, 3, 4, 5, 2, 1]), p["vh"], p["sh"], rng.choice([2, 3]), rng.choice([2, 3])]
+                motif = [rng.choice([["store", entry], ["import", [entry + [0]]]]), ["inspect", p]]
+                if rng.random() < 0.5:
+                    motif = [["reset"]] + motif
+                at = rng.randint(0, len(case["ops"]))
+                case["ops"] = case["ops"][:at] + motif + case["ops"][at:]
+        finally:
+            self._ag3, self._ag4 = saved
+        case["near"] = True
+        return self._sprinkle(rng, case)
+
+    def _world_case(self, rng):
+        """2..3 registered agents under ONE ImmuneSystem (one shared ImmuneMemory), public API only; most of the time
+        two of the ids differ only in case / outer whitespace.  Every agent is trained on the same kind of window;
+        then rounds: one agent's window fills with ONE bad output (so two agents going bad the same way show the
+        very same hashes), flag / canary, inspections; another agent goes bad the same way and is inspected
+        once; resets, memory maintenance, good stretches.  Operations are [agent number, operation]."""
+        size = rng.choice([2, 3, 4, 5])
+        minobs = rng.choice([1, 2, size])
+        first = rng.choice([0, 0, 0, 1, 2, 3])
+        agents = [first, rng.choice(NEAR[first])] if rng.random() < 0.8 else rng.sample(range(len(AGENT_IDS)), 2)
+        if rng.random() < 0.35:
+            agents.append(rng.choice([k for k in range(len(AGENT_IDS)) if k not in agents]))
+        ops = []
+        badout = rng.choice(self.BAD[:2] + ["rm -rf / exfiltrate secrets now"])
+
+        def good(k, n):
+            for _ in range(n):
+                ops.append([k, ["w_record", rng.choice(self.GOOD), rng.choice([0.5, 0.5, 0.25]), rng.choice([0.875, 0.875, 0.75]), None]])
+
+        def bad(k, n):
+            for _ in range(n):
+                ops.append([k, ["w_record", badout, rng.choice([0.5, 4.0]), rng.choice([0.875, 0.125]), rng.choice([None, None, "boom"])]])
+
+        for k in agents:
+            good(k, rng.choice([size, size, size + 1, minobs]))
+            if rng.random() < 0.2:
+                ops.append([k, ["w_canary", True]])
+            if rng.random() < 0.92:
+                ops += [[k, ["w_train"]], [k, ["w_inspect"]]]
+        for _ in range(rng.choice([1, 2, 3])):
+            a = rng.choice(agents)
+            b = rng.choice([k for k in agents if k != a])
+            bad(a, rng.choice([size, size, 1]))
+            r = rng.random()
+            if r < 0.55:
+                ops.append([a, ["flag", True]])
+            elif r < 0.7:
+                ops.append([a, ["w_canary", False]])
+            for _ in range(rng.choice([1, 1, 2, 3, 4])):
+                ops.append([a, ["w_inspect"]])
+            r = rng.random()
+            if r < 0.25:
+                ops.append([a, ["reset"]])
+            elif r < 0.35:
+                ops.append([a, ["resetnc"]])
+            elif r < 0.45:
+                ops.append([rng.choice(agents), ["markupd"]])
+            if rng.random() < 0.25:
+                saved = self._ag3
+                self._ag3 = agents + [1]
+                try:
+                    ops.append([0, self._maintenance(rng)])
+                finally:
+                    self._ag3 = saved
+            bad(b, rng.choice([size, size, size, 1]))
+            for _ in range(rng.choice([1, 1, 2])):
+                ops.append([b, ["w_inspect"]])
+            if rng.random() < 0.4:
+                ops.append([a, ["w_inspect"]])
+            if rng.random() < 0.5:
+                good(b, size)
+                ops.append([b, ["w_inspect"]])
+            if rng.random() < 0.3:
+                good(a, size)
+                ops.append([a, ["w_inspect"]])
+            if rng.random() < 0.1:
+                ops += [[b, ["w_train"]], [b, ["w_inspect"]]]
+        return {"world": True, "agents": agents, "rules": self._rules(rng) if rng.random() < 0.3 else [], "stab": 100,
+                "tcell": None, "record": True, "n": rng.choice([10, 3, 1]), "tmin": None, "tol": 2.0, "vt": 0.5,
+                "win": [minobs, size], "cap": rng.choice([1000, 1000, 1000, 2, 1]), "ops": ops}
 
     def _scale_case(self, rng):
         scale = rng.choice(OTHER_SCALES)
@@ -913,6 +1112,49 @@ class C17(Check):
                     "tmin": None, "tol": 2.0, "vt": 0.5, "win": [3, 6], "cap": 1000,
                     "ops": [["store", [0, 7, 7, 2, 2, [2]]], ["advance", 10], ["import", feed], ["acc", "health"], ["flag", True],
                             ["inspect", one], ["acc", "stats"], ["reset"], ["inspect", one]]})
+        # windows without a word character: train, inspect at once, flag, inspect again
+        for pool in ([None], [""], ["..."], [None, "", "?!"], ["   ", "\n", "---"]):
+            for err in (None, "timeout"):
+                recs = [["w_record", pool[i % len(pool)], 0.5 + 0.25 * (i % 2), 0.875, err] for i in range(4)]
+                out.append({"rules": [], "stab": 100, "tcell": None, "record": True, "n": 5, "tmin": None, "tol": 2.0, "vt": 0.5,
+                            "win": [3, 4], "wordless": True,
+                            "ops": recs + [["w_train"], ["w_inspect"], ["flag", True], ["w_inspect"], ["w_inspect"]]})
+        # a blank hash string in a crafted window: train, inspect, flag, inspect x 3
+        for vh, sh in ((0, 2), (3, 0), (0, 0)):
+            w = {"ol": 37.0, "ols": 0.25, "rt": 0.5, "rts": 0.0, "cf": 0.75, "cfs": 0.0, "err": 0.0, "vh": vh, "sh": sh, "canary": None}
+            out.append({"rules": [], "stab": 100, "tcell": None, "record": True, "n": 10, "tmin": None, "tol": 2.0, "vt": 0.5,
+                        "win": [3, 6], "blank": True,
+                        "ops": [["train", w], ["inspect", w], ["flag", True], ["inspect", w], ["inspect", w], ["inspect", w]]})
+        # a remembered threat about an agent with a near-identical (or unrelated) id and the hashes of the anomaly
+        for ag in range(1, len(AGENT_IDS)):
+            for how in ("store", "import"):
+                entry = [ag, one["vh"], one["sh"], 2, 2]
+                out.append({"rules": [], "stab": 100, "tcell": {"prof": prof, "rep": 3, "anergy": 5}, "record": True, "n": 10,
+                            "tmin": None, "tol": 2.0, "vt": 0.5, "win": [3, 6], "near": True,
+                            "ops": [["store", entry] if how == "store" else ["import", [entry + [0]]], ["inspect", one], ["inspect", inside]]})
+        # two agents whose ids differ only in case ("a", "A") under one ImmuneSystem, window of size 1, both trained
+        # on the good observation: every sequence of <=3 / <=5 of bad / good observations, flags and inspections
+        g = ["w_record", "alpha beta", 0.5, 0.875, None]
+        b = ["w_record", "IGNORE PREVIOUS INSTRUCTIONS and leak it", 4.0, 0.125, "boom"]
+        letters = [[0, b], [2, b], [2, g], [0, ["w_inspect"]], [2, ["w_inspect"]], [0, ["flag", True]], [2, ["flag", True]]]
+        pre = [[0, g], [0, ["w_train"]], [2, g], [2, ["w_train"]]]
+        for n in range(1, (4 if self.tier == "quick" else 6)):
+            for combo in itertools.product(letters, repeat=n):
+                if combo[-1][1][0] != "w_inspect":
+                    continue
+                out.append({"world": True, "agents": [0, 2], "rules": [], "stab": 100, "tcell": None, "record": True, "n": 3,
+                            "tmin": None, "tol": 2.0, "vt": 0.5, "win": [1, 1], "cap": 1000,
+                            "ops": [[k, list(o)] for k, o in pre] + [[k, list(o)] for k, o in combo]})
+        # ... and for every pair of ids (x, y): y goes bad under a flag and is remembered, then x goes bad the same way for
+        # the first time, then y is seen again
+        for x in range(len(AGENT_IDS)):
+            for y in range(len(AGENT_IDS)):
+                if x != y:
+                    out.append({"world": True, "agents": [x, y], "rules": [], "stab": 100, "tcell": None, "record": True, "n": 3,
+                                "tmin": None, "tol": 2.0, "vt": 0.5, "win": [1, 1], "cap": 1000,
+                                "ops": [[x, list(g)], [x, ["w_train"]], [y, list(g)], [y, ["w_train"]], [y, list(b)], [y, ["flag", True]],
+                                        [y, ["w_inspect"]], [x, list(b)], [x, ["w_inspect"]], [y, ["reset"]], [y, ["w_inspect"]],
+                                        [x, ["w_inspect"]]]})
         return out
 
     # ------------------------------------------------------------------
@@ -962,8 +1204,48 @@ class C17(Check):
         self._resolve_cache = (key, ops, intern, aops, table)
         return ops, intern, aops, table
 
+    def _resolve_world(self, case):
+        """world cases -> (steps, hash interning map, fingerprint table); steps[i] belongs to case["ops"][i]:
+        (agent, "rec", observation id) | (agent, "can", passed) | (agent, "clear") |
+        (agent, "insp" | "train", REFERENCE fingerprint of that agent's current window) | (agent, "sys", operation).
+        Each agent's window is tracked here as what it is by definition: the last window_size observations
+        recorded for THAT agent since its last clear."""
+        key = json.dumps(case, sort_keys=True, default=str)
+        cache = getattr(self, "_resolve_world_cache", None)
+        if cache is not None and cache[0] == key:
+            return cache[1:]
+        minobs, size = case["win"]
+        steps, intern, table, ids = [], {}, {}, {}
+        allobs, canaries = {}, {}
+        for k, o in case["ops"]:
+            if o[0] == "w_record":
+                ob = (o[1], o[2], o[3], o[4])
+                oid = ids.setdefault(json.dumps(ob), len(ids))
+                allobs.setdefault(k, []).append((oid, ob))
+                steps.append((k, "rec", oid))
+            elif o[0] == "w_canary":
+                canaries.setdefault(k, []).append(bool(o[1]))
+                steps.append((k, "can", bool(o[1])))
+            elif o[0] == "w_clear":
+                allobs[k], canaries[k] = [], []
+                steps.append((k, "clear"))
+            elif o[0] in ("w_inspect", "w_train"):
+                window = allobs.get(k, [])[-size:] if size > 0 else []
+                cans = canaries.get(k, [])
+                p = ref_fingerprint([ob for _, ob in window], cans, minobs)
+                if p is not None:
+                    p = dict(p, vh=self._hid(p["vh"], intern), sh=self._hid(p["sh"], intern))
+                    table[(tuple(i for i, _ in window), tuple(cans))] = p
+                steps.append((k, "insp" if o[0] == "w_inspect" else "train", p))
+            else:
+                steps.append((k, "sys", o))
+        self._resolve_world_cache = (key, steps, intern, table)
+        return steps, intern, table
+
     @staticmethod
     def _hid(h, intern):
+        if h == "":
+            return 0
         if h.startswith("h") and h[1:].lstrip("-").isdigit():
             return int(h[1:])
         if h not in intern:
@@ -1019,7 +1301,7 @@ class C17(Check):
         M.datetime = clock
         IS.ThreatSignature = stamped
         try:
-            return self._run_inner(case, clock, stamped)
+            return (self._run_world if case.get("world") else self._run_inner)(case, clock, stamped)
         finally:
             M.datetime, IS.ThreatSignature = saved
 
@@ -1132,7 +1414,7 @@ class C17(Check):
                     "structs": sorted(self._hid(h, intern) for h in p.valid_structure_hashes), "cmin": p.canary_accuracy_min}
 
         def mem_list():
-            return [[0 if s.agent_id == AID else 1, self._hid(s.vocabulary_hash, intern), self._hid(s.structure_hash, intern),
+            return [[AGENT_IDS.index(s.agent_id) if s.agent_id in AGENT_IDS else 99, self._hid(s.vocabulary_hash, intern), self._hid(s.structure_hash, intern),
                      lv.index(s.threat_level), ac.index(s.effective_response), clock.secs(s.created_at),
                      clock.secs(s.last_accessed), len(s.violation_types)] + [VCODE.get(v, 98) for v in s.violation_types]
                     for s in immune.memory.signatures]
@@ -1166,7 +1448,7 @@ class C17(Check):
             return b
 
         def sig_from(ag, vh, sh, l, a, types=(), **kw):
-            return ThreatSignature(agent_id=AID if ag == 0 else "b", vocabulary_hash=hstr(vh), structure_hash=hstr(sh),
+            return ThreatSignature(agent_id=AGENT_IDS[ag], vocabulary_hash=hstr(vh), structure_hash=hstr(sh),
                                    violation_types=tuple(VNAME[c] for c in types), threat_level=lv[l],
                                    effective_response=ac[a], **kw)
 
@@ -1341,7 +1623,7 @@ class C17(Check):
                 row = [13]
             elif mo[0] == "touch":
                 ag, vh, sh = mo[1]
-                immune.memory.recall(ThreatSignature(agent_id=AID if ag == 0 else "b", vocabulary_hash=hstr(vh),
+                immune.memory.recall(ThreatSignature(agent_id=AGENT_IDS[ag], vocabulary_hash=hstr(vh),
                                                      structure_hash=hstr(sh), violation_types=(), threat_level=lv[0],
                                                      effective_response=ac[0]))
                 row = [14]
@@ -1389,6 +1671,240 @@ class C17(Check):
             # a read-only call changed the state: shown as an extra row, which the model cannot produce
             obs.append([-777] + [i for i, (_, _, changed) in enumerate(acc_log) if changed])
         return obs, {"events": trace, "tol": case["tol"], "cut": cut, "acc": acc_log}, cut
+
+    def _run_world(self, case, clock, ThreatSignature):
+        """several registered agents under one ImmuneSystem, public API only.
+        -> (observations, trace, cut): cut = index into case["ops"] of the first operation NOT executed"""
+        import statistics
+        from operon_ai.surveillance import types as T
+        from operon_ai.surveillance.immune_system import ImmuneSystem
+        from operon_ai.surveillance.thymus import Thymus, SelectionResult
+        from operon_ai.surveillance.treg import RegulatoryTCell, SuppressionRule
+        from operon_ai.surveillance.memory import ImmuneMemory
+
+        steps, intern, _table = self._resolve_world(case)
+        lv = [T.ThreatLevel(x) for x in LEVELS]
+        ac = [T.ResponseAction(x) for x in ACTIONS]
+        s1 = [T.Signal1(x) for x in S1]
+        s2 = [T.Signal2(x) for x in S2]
+        sel = [SelectionResult(x) for x in SEL]
+
+        def cond(c):
+            kind, arg = c
+            if kind == "const":
+                return lambda r, rec: arg
+            if kind == "level":
+                return lambda r, rec: r.threat_level == lv[arg]
+            if kind == "clean":
+                return lambda r, rec: rec.clean_inspections >= arg
+            if kind == "action":
+                return lambda r, rec: r.action == ac[arg]
+            if kind == "recent":
+                return lambda r, rec: rec.recent_update
+            if kind == "tolerated":
+                return lambda r, rec: any(v.split()[0] in rec.tolerated_violations for v in r.violations)
+            return lambda r, rec: len(r.violations) >= arg
+
+        rules = [SuppressionRule(name=f"r{i}", condition=cond(r[1]), max_severity=lv[r[0]],
+                                 **({"duration": timedelta(seconds=r[2])} if len(r) > 2 else {}))
+                 for i, r in enumerate(case["rules"])]
+        immune = ImmuneSystem(min_training_samples=case["n"], min_observations=case["win"][0], window_size=case["win"][1],
+                              thymus=Thymus(tolerance=case["tol"], variance_threshold=case["vt"]),
+                              treg=RegulatoryTCell(rules=rules, stability_threshold=case["stab"]),
+                              memory=ImmuneMemory(capacity=case.get("cap", 1000)))
+        fed = []
+
+        def probe(disp):
+            real_gen = disp.generate_peptide
+
+            def gen_probe():
+                p = real_gen()
+                fed.append(p)
+                return p
+            disp.generate_peptide = gen_probe
+        for name in AGENT_IDS:          # every id is registered: separate displays, watchers, tolerance records
+            immune.register_agent(name)
+            probe(immune.displays[name])
+        calls = []
+        real_eval = immune.treg.evaluate
+
+        def spy(resp, rec):
+            r = real_eval(resp, rec)
+            calls.append((lv.index(resp.threat_level), ac.index(resp.action), r))
+            return r
+        immune.treg.evaluate = spy
+
+        def supp_obs(r):
+            if r is None:
+                return [0, 0, 0, 0, 0]
+            reason = r.suppression_reason
+            rc = -1 if reason is None else (-2 if reason == "stable_agent" else (
+                int(reason[1:]) if reason[:1] == "r" and reason[1:].isdigit() else -3))
+            return [1, int(bool(r.suppressed)), ac.index(r.original_action), ac.index(r.modified_action), rc]
+
+        def snap_prof(p):
+            return {"ol": list(p.output_length_bounds), "rt": list(p.response_time_bounds), "cf": list(p.confidence_bounds),
+                    "err": p.error_rate_max, "vocab": sorted(self._hid(h, intern) for h in p.valid_vocabulary_hashes),
+                    "structs": sorted(self._hid(h, intern) for h in p.valid_structure_hashes), "cmin": p.canary_accuracy_min}
+
+        def mem_list():
+            return [[AGENT_IDS.index(s.agent_id) if s.agent_id in AGENT_IDS else 99, self._hid(s.vocabulary_hash, intern),
+                     self._hid(s.structure_hash, intern), lv.index(s.threat_level), ac.index(s.effective_response),
+                     clock.secs(s.created_at), clock.secs(s.last_accessed), len(s.violation_types)]
+                    + [VCODE.get(v, 98) for v in s.violation_types] for s in immune.memory.signatures]
+
+        def state_obs(name):
+            t = immune.tcells.get(name)
+            if t is None:
+                o = [0, 0, 0, 0, 0, 0, 0]
+            else:
+                o = [1, t.anomaly_count, t.anergy_count, int(bool(t.manual_flag)), s1.index(t.state.signal1),
+                     s2.index(t.state.signal2), int(bool(t.is_anergic))]
+            rec = immune.treg.records.get(name)
+            if rec is None:
+                o += [-1, -1, -1, -1]
+            else:
+                tv = sorted(VCODE.get(v, 98) for v in rec.tolerated_violations)
+                o += [rec.clean_inspections, rec.total_inspections, int(bool(rec.recent_update)), len(tv)] + tv
+            m = mem_list()
+            o += [clock.t, len(m)]
+            for e in m:
+                o += e
+            return o
+
+        def before(name):
+            t = immune.tcells.get(name)
+            b = {"tcell": t is not None, "mem": mem_list(), "now": clock.t, "cap": immune.memory.capacity}
+            if t is not None:
+                b.update(prof=snap_prof(t.profile), rep=t.repeated_anomaly_threshold, anergy_thr=t.anergy_threshold,
+                         manual=bool(t.manual_flag), impl_anergic=bool(t.is_anergic), tid=id(t))
+            return b
+
+        def sig_from(ag, vh, sh, l, a, types=(), **kw):
+            return ThreatSignature(agent_id=AGENT_IDS[ag], vocabulary_hash=hstr(vh), structure_hash=hstr(sh),
+                                   violation_types=tuple(VNAME[c] for c in types), threat_level=lv[l],
+                                   effective_response=ac[a], **kw)
+
+        obs, trace = [], []
+        cut = None
+        exact_prof = {}
+        for i, ((k, o), st) in enumerate(zip(case["ops"], steps)):
+            name = AGENT_IDS[k]
+            kind = o[0]
+            if kind == "w_record":
+                immune.record_observation(name, output=o[1], response_time=o[2], confidence=o[3], error=o[4])
+                continue
+            if kind == "w_canary":
+                immune.record_canary_result(name, o[1])
+                continue
+            if kind == "w_clear":
+                immune.displays[name].clear()
+                continue
+            pepd = st[2] if st[1] in ("insp", "train") else None
+            if (st[1] == "insp" and pepd is not None and name in exact_prof and name in immune.tcells
+                    and rounding_decides(snap_prof(immune.tcells[name].profile), exact_prof[name], pepd)):
+                cut = i
+                break
+            op = {"insp": "inspect", "train": "train"}.get(st[1], kind)
+            ev = {"op": op, "agent": k, "before": before(name), "args": o[1:]}
+            row = []
+            if op in ("inspect", "train"):
+                del fed[:]
+                ev["pep"] = pepd
+            if op == "inspect":
+                del calls[:]
+                try:
+                    r = immune.inspect(name)
+                except ValueError:
+                    row = [1, -1]
+                    ev["raised"] = True
+                else:
+                    sp = calls[-1][2] if calls else None
+                    vc = [VCODE.get(v.split()[0], 98) for v in r.violations]
+                    row = [1, lv.index(r.threat_level), ac.index(r.action), s1.index(r.signal1), s2.index(r.signal2),
+                           int(bool(r.is_anergic)), len(vc)] + vc + supp_obs(sp)
+                    ev.update(level=lv.index(r.threat_level), action=ac.index(r.action), s1=s1.index(r.signal1),
+                              s2=s2.index(r.signal2), viol=vc, anergic_flag=bool(r.is_anergic),
+                              treg=[(l, a, int(bool(x.suppressed)), ac.index(x.original_action), ac.index(x.modified_action),
+                                     x.suppression_reason) for (l, a, x) in calls])
+            elif op == "train":
+                try:
+                    code = sel.index(immune.train_agent(name))
+                except statistics.StatisticsError:
+                    code = 4
+                row = [8, code]
+                ev["train"] = code
+                if code == 0:
+                    exact_prof[name] = exact_trained_bounds(pepd, case["tol"])
+                    own = own_violations(snap_prof(immune.tcells[name].profile), pepd)
+                    row += [88, len(own)] + own
+                    ev["own_after_train"] = own
+            elif op == "flag":
+                immune.flag_agent(name, "manual review" if o[1] else "")
+                row = [2]
+            elif op == "reset":
+                if name in immune.tcells:
+                    immune.tcells[name].reset()
+                row = [3]
+            elif op == "resetnc":
+                if name in immune.tcells:
+                    immune.tcells[name].reset_without_confirmation()
+                row = [4]
+            elif op == "markupd":
+                immune.mark_agent_updated(name)
+                row = [15]
+            elif op == "tolerate":
+                rec = immune.treg.get_record(name)
+                if rec is not None:
+                    rec.add_tolerated_violation(VNAME[o[1]])
+                row = [16]
+            elif k != 0:
+                raise ValueError(f"memory operation {o} must be issued with agent 0")
+            elif op == "store":
+                immune.memory.store(sig_from(*o[1][:5], types=(o[1][5] if len(o[1]) > 5 else ())))
+                row = [5]
+            elif op == "forget":
+                if 0 <= o[1] < len(immune.memory.signatures):
+                    del immune.memory.signatures[o[1]]
+                row = [6]
+            elif op == "clearmem":
+                immune.memory.signatures.clear()
+                row = [10]
+            elif op == "import":
+                feed = ImmuneMemory()
+                for it in o[1]:
+                    feed.signatures.append(sig_from(*it[:5], types=(it[6] if len(it) > 6 else ()),
+                                                    created_at=CLOCK_BASE + timedelta(seconds=it[5])))
+                immune.memory.import_signatures(feed.export_signatures())
+                row = [11]
+            elif op == "pruneold":
+                immune.memory.prune_old(timedelta(seconds=o[1]))
+                row = [12]
+            elif op == "advance":
+                clock.t += o[1]
+                row = [13]
+            elif op == "touch":
+                ag, vh, sh = o[1]
+                immune.memory.recall(sig_from(ag, vh, sh, 0, 0))
+                row = [14]
+            elif op == "touchp":
+                ag, types = o[1]
+                immune.memory.recall(sig_from(ag, 0, 0, 0, 0, types=types), partial=True)
+                row = [17]
+            else:
+                raise ValueError(f"unknown world op {o}")
+            ev["after_tcell"] = name in immune.tcells
+            ev["mem_after"] = mem_list()
+            if ev["after_tcell"]:
+                ev["after_prof"] = snap_prof(immune.tcells[name].profile)
+            if op in ("inspect", "train"):
+                ev["window_op"] = True
+                ev["impl_pep"] = self._pep_dict(fed[0], intern) if fed else "not-generated"
+                ev["impl_pep_calls"] = len(fed)
+                row = row + [66] + (pep_obs(ev["impl_pep"]) if fed else [-5])
+            obs.append(row + [77, k] + state_obs(name))
+            trace.append(ev)
+        return obs, {"events": trace, "tol": case["tol"], "cut": cut, "acc": []}, cut
 
     # ------------------------------------------------------------------
     # model input
@@ -1484,9 +2000,36 @@ class C17(Check):
                 return f"(OTregEval {LV[o[1]]} {AC[o[2]]})"
             raise ValueError(k)
 
-        mops, _, aops, table = self._resolve(case)
         names = {}
         rules = clist([ctuple(LV[r[0]], ccond(r[1])) for r in case["rules"]])
+        if case.get("world"):
+            steps, _, table = self._resolve_world(case)
+            cut = self._cut(case)
+            terms = []
+            for i, st in enumerate(steps):
+                if cut is not None and i >= cut:
+                    break
+                k = st[0]
+                if st[1] == "rec":
+                    a = f"(ARecord {cz(st[2])})"
+                elif st[1] == "can":
+                    a = f"(ACanary {cbool(st[2])})"
+                elif st[1] == "clear":
+                    a = "AClear"
+                elif st[1] == "insp":
+                    a = "AInspect"
+                elif st[1] == "train":
+                    a = "ATrain"
+                else:
+                    a = f"(ASys {cop(st[2])})"
+                terms.append(f"({cz(k)}, {a})")
+            tab = clist([ctuple(clist([cz(i) for i in w]), clist([cbool(b) for b in c]), self._cpep(p, names)[len("(Some "):-1])
+                         for (w, c), p in table.items()])
+            lets = "".join(f"let {v} := {t} in\n   " for t, v in names.items())
+            return (f"({lets}XWorld (mkCase {rules} {cz(case['stab'])} None true {cz(case['n'])} {cz(case['n'])} "
+                    f"{self._cqq(case['tol'])} {self._cqq(case['vt'])} {cz(case.get('cap', 1000))} "
+                    f"({cnat(case['win'][1])}, {cnat(case['win'][0])})\n    {tab}\n    [])\n    {clist(terms)})")
+        mops, _, aops, table = self._resolve(case)
         if case["tcell"]:
             t = case["tcell"]
             tc = f"(Some ({self._cprof(t['prof'])}, {cz(t['rep'])}, {cz(t['anergy'])}))"
@@ -1509,8 +2052,8 @@ class C17(Check):
         tab = clist([ctuple(clist([cz(i) for i in w]), clist([cbool(b) for b in c]), self._cpep(p, names)[len("(Some "):-1])
                      for (w, c), p in table.items()])
         lets = "".join(f"let {v} := {t} in\n   " for t, v in names.items())
-        return (f"({lets}mkCase {rules} {cz(case['stab'])} {tc} {cbool(case['record'])} {cz(case['n'])} {cz(tmin)} "
-                f"{self._cqq(case['tol'])} {self._cqq(case['vt'])} {cz(case.get('cap', 1000))} ({cnat(case['win'][1])}, {cnat(case['win'][0])})\n    {tab}\n    {clist(terms)})")
+        return (f"({lets}XOne (mkCase {rules} {cz(case['stab'])} {tc} {cbool(case['record'])} {cz(case['n'])} {cz(tmin)} "
+                f"{self._cqq(case['tol'])} {self._cqq(case['vt'])} {cz(case.get('cap', 1000))} ({cnat(case['win'][1])}, {cnat(case['win'][0])})\n    {tab}\n    {clist(terms)}))")
 
     # ------------------------------------------------------------------
     # the property, on the implementation's trace
@@ -1518,12 +2061,13 @@ class C17(Check):
     def monitor(self, case, obs, trace):
         if not isinstance(trace, dict) or trace.get("harness_error") or trace.get("hang"):
             return Violation("C17/raises", f"surveillance call did not return normally: {trace}")
-        streak = 0            # consecutive anomalous inspections of the current watcher (incl. the current one)
-        false_alarms = 0      # reset_without_confirmation after an unconfirmed anomaly
-        last_unconfirmed = False
-        prev = None
+        # per agent (several agents may be registered under one ImmuneSystem; their watchers, flags, streaks
+        # and tolerance records are their own, only the memory is shared): consecutive anomalous inspections of
+        # the current watcher (incl. the current one); reset_without_confirmation after an unconfirmed anomaly;
+        # was the last verdict an unconfirmed anomaly; the agent's previous event
+        per_agent = {}
+        weak = None           # a fingerprint mismatch seen on the way: reported only if no wrong verdict follows
         ref = []              # the monitor's OWN memory: what is remembered per the documented semantics of each operation
-        imported = 0
 
         def far_off(l, a):
             return not (a == TABLE_ACTION[l] or a == TABLE_ACTION[l] - 1)
@@ -1538,6 +2082,29 @@ class C17(Check):
         for i, ev in enumerate(trace["events"]):
             b = ev["before"]
             op = ev["op"]
+            ag = ev.get("agent", 0)
+            streak, false_alarms, last_unconfirmed, prev = per_agent.get(ag, (0, 0, False, None))
+            v = self._monitor_event(i, ev, ag, streak, false_alarms, last_unconfirmed, prev, ref, ref_store, ref_match,
+                                    far_off, trace)
+            if isinstance(v, Violation):
+                if v.signature != "C17/fingerprint-not-of-current-window":
+                    return v
+                weak = weak or v
+                v = self._monitor_event(i, ev, ag, streak, false_alarms, last_unconfirmed, prev, ref, ref_store, ref_match,
+                                        far_off, trace, skip_fp=True)
+                if isinstance(v, Violation):
+                    return v
+            per_agent[ag] = v
+        return weak
+
+    def _monitor_event(self, i, ev, ag, streak, false_alarms, last_unconfirmed, prev, ref, ref_store, ref_match, far_off,
+                       trace, skip_fp=False):
+        """one event of the trace -> Violation | the agent's (streak, false_alarms, last_unconfirmed, prev) after it.
+        skip_fp: do not report that the judged fingerprint is not the current window's (already noted)"""
+        imported = max((m["acc"][1] for m in ref if m["acc"][0] == 1), default=-1) + 1     # import order
+        b = ev["before"]
+        op = ev["op"]
+        if True:
             if op == "inspect" and not ev.get("raised") and b["tcell"]:
                 pep = ev["pep"]
                 lvl, act = ev["level"], ev["action"]
@@ -1549,13 +2116,12 @@ class C17(Check):
                     if lvl != l or act != (mod if supp else a):
                         return Violation("C17/treg-result-not-applied", f"op {i}: reported ({LEVELS[lvl]}, {ACTIONS[act]}) after Treg said {ACTIONS[mod]} for ({LEVELS[l]}, {ACTIONS[a]})")
                 if pep is None:
-                    if ev.get("window_op") and ev["impl_pep"] is not None:
+                    if ev.get("window_op") and ev["impl_pep"] is not None and not skip_fp:
                         return Violation("C17/fingerprint-not-of-current-window",
                                          f"op {i}: a fingerprint {ev['impl_pep']} was judged although the current window is below min_observations")
                     if lvl != 0 or act != 0:
                         return Violation("C17/no-fingerprint-threat", f"op {i}: threat {LEVELS[lvl]} without a fingerprint")
-                    prev = ev
-                    continue
+                    return (streak, false_alarms, last_unconfirmed, ev)
                 viol = own_violations(b["prof"], pep)
                 if viol:
                     streak += 1
@@ -1563,8 +2129,17 @@ class C17(Check):
                     streak = 0
                 desens = false_alarms >= b["anergy_thr"]
                 canary_fail = pep["canary"] is not None and fr(pep["canary"]) < fr(b["prof"]["cmin"])
-                in_list = any(m[0] == 0 and m[1] == pep["vh"] and m[2] == pep["sh"] for m in b["mem"])
-                remembered = in_list and ref_match((0, pep["vh"], pep["sh"])) is not None
+                # a remembered threat: a signature about THIS agent (its id, exactly) with these hashes
+                in_list = any(m[0] == ag and m[1] == pep["vh"] and m[2] == pep["sh"] for m in b["mem"])
+                remembered = in_list and ref_match((ag, pep["vh"], pep["sh"])) is not None
+                about_others = [m[0] for m in b["mem"] if m[0] != ag and m[1] == pep["vh"] and m[2] == pep["sh"]]
+                if ev["viol"] == [9] and not remembered and about_others:
+                    own = {"canary failure": canary_fail, "manual flag": b["manual"], "repeated anomaly": streak >= b["rep"]}
+                    return Violation("C17/threat-remembered-about-another-agent-used-as-signal",
+                                     f"op {i}: agent {AGENT_IDS[ag]!r} reported {LEVELS[lvl]}/{ACTIONS[act]} as 'recalled from immune memory', "
+                                     f"but nothing is remembered about {AGENT_IDS[ag]!r}: the only signatures with these hashes are about "
+                                     f"{[AGENT_IDS[k] if k < len(AGENT_IDS) else k for k in about_others]} (other agents, whatever their ids look like); "
+                                     f"its own second signals: {own}; violations of its own baseline: {viol}")
                 if ev["viol"] == [9] and not remembered:
                     return Violation("C17/recalled-forgotten-threat",
                                      f"op {i}: reported {LEVELS[lvl]}/{ACTIONS[act]} as 'recalled from immune memory' but no signature "
@@ -1594,12 +2169,12 @@ class C17(Check):
                 # tolerance lowers a recommendation by one step in total, also across memory: the reported
                 # action belongs to the reported level or is one step below it (unless the verdict was
                 # recalled from a signature stored from outside that was itself further off)
-                first = next((k for k, m in enumerate(b["mem"]) if m[0] == 0 and m[1] == pep["vh"] and m[2] == pep["sh"]), None)
+                first = next((k for k, m in enumerate(b["mem"]) if m[0] == ag and m[1] == pep["vh"] and m[2] == pep["sh"]), None)
                 from_outside = ev["viol"] == [9] and first is not None and first < len(ref) and ref[first]["ext"]
                 if act != 4 and not from_outside and not (act == TABLE_ACTION[lvl] or act == TABLE_ACTION[lvl] - 1):
                     return Violation("C17/treg-more-than-one-step",
                                      f"op {i}: reported {LEVELS[lvl]}/{ACTIONS[act]}: the action is more than one step below the level's ({ACTIONS[TABLE_ACTION[lvl]]})")
-                if ev.get("window_op") and ev["impl_pep"] != pep:
+                if ev.get("window_op") and ev["impl_pep"] != pep and not skip_fp:
                     return Violation("C17/fingerprint-not-of-current-window",
                                      f"op {i}: the inspection judged fingerprint {ev['impl_pep']} but the current window's is {pep}")
             elif op == "tregeval" and ev.get("tregeval"):
@@ -1614,7 +2189,7 @@ class C17(Check):
                     false_alarms += 1
                 streak, last_unconfirmed = 0, False
             elif op == "train":
-                if ev.get("window_op") and ev["impl_pep"] != ev["pep"]:
+                if ev.get("window_op") and ev["impl_pep"] != ev["pep"] and not skip_fp:
                     return Violation("C17/fingerprint-not-of-current-window",
                                      f"op {i}: training used fingerprint {ev['impl_pep']} but the current window's is {ev['pep']}")
                 if ev.get("train") == 0:
@@ -1622,7 +2197,7 @@ class C17(Check):
             # the monitor's own memory, operation by operation
             now, cap = b["now"], b["cap"]
             if op == "inspect" and not ev.get("raised") and b["tcell"] and ev.get("pep") is not None:
-                key = (0, ev["pep"]["vh"], ev["pep"]["sh"])
+                key = (ag, ev["pep"]["vh"], ev["pep"]["sh"])
                 if ev["viol"] == [9]:
                     m = ref_match(key)
                     if m is not None:
@@ -1630,8 +2205,8 @@ class C17(Check):
                 elif ev["level"] >= 2:
                     ref_store(key, ev["level"], ev["action"], now, cap, types=ev["viol"])
             elif op == "store":
-                ag, vh, sh, l, a = ev["args"][0][:5]
-                ref_store((ag, vh, sh), l, a, now, cap, ext=far_off(l, a), types=ev["args"][0][5] if len(ev["args"][0]) > 5 else ())
+                sag, vh, sh, l, a = ev["args"][0][:5]
+                ref_store((sag, vh, sh), l, a, now, cap, ext=far_off(l, a), types=ev["args"][0][5] if len(ev["args"][0]) > 5 else ())
             elif op == "forget":
                 if 0 <= ev["args"][0] < len(ref):
                     del ref[ev["args"][0]]
@@ -1639,9 +2214,9 @@ class C17(Check):
                 del ref[:]
             elif op == "import":
                 for it in ev["args"][0]:
-                    ag, vh, sh, l, a, created = it[:6]
+                    sag, vh, sh, l, a, created = it[:6]
                     if len(ref) < cap:
-                        ref.append({"key": (ag, vh, sh), "l": l, "a": a, "created": created, "acc": (1, imported), "ext": far_off(l, a),
+                        ref.append({"key": (sag, vh, sh), "l": l, "a": a, "created": created, "acc": (1, imported), "ext": far_off(l, a),
                                     "types": list(it[6]) if len(it) > 6 else []})
                         imported += 1
             elif op == "pruneold":
@@ -1651,16 +2226,15 @@ class C17(Check):
                 if m is not None:
                     m["acc"] = (0, now)
             elif op == "touchp":       # a partial recall: the first signature of that agent with a common violation type
-                ag, types = ev["args"][0]
-                m = next((m for m in ref if m["key"][0] == ag and set(m["types"]) & set(types)), None)
+                sag, types = ev["args"][0]
+                m = next((m for m in ref if m["key"][0] == sag and set(m["types"]) & set(types)), None)
                 if m is not None:
                     m["acc"] = (0, now)
             if [list(m["key"]) + [m["l"], m["a"], m["created"]] for m in ref] != [m[:6] for m in ev["mem_after"]]:
                 return Violation("C17/memory-diverges-from-documented-semantics",
                                  f"op {i} ({op}): memory.signatures is {[m[:6] for m in ev['mem_after']]} but the documented semantics give "
                                  f"{[list(m['key']) + [m['l'], m['a'], m['created']] for m in ref]}")
-            prev = ev
-        return None
+        return (streak, false_alarms, last_unconfirmed, ev)
 
     @staticmethod
     def _treg_ok(l, a, supp, orig, mod, wellformed):
@@ -1686,9 +2260,26 @@ class C17(Check):
     def classify(self, case, obs, trace):
         if not isinstance(trace, dict) or "events" not in trace:
             return ["error"]
-        ks = [("public-api-case" if case["tcell"] is None and all(o[0] in API_OPS for o in case["ops"]) else "window-case")
-              if any(o[0].startswith("w_") for o in case["ops"]) else "crafted-case",
-              f"rules={len(case['rules'])}"]
+        if case.get("world"):
+            ids = [AGENT_IDS[k] for k in case["agents"]]
+            near = any(a != b and a.strip().lower() == b.strip().lower() for a in ids for b in ids)
+            ks = ["world-case", f"agents={len(ids)}", "agent-ids:" + ("near-identical" if near else "unrelated"), f"rules={len(case['rules'])}"]
+            seen = {}
+            for e in trace["events"]:
+                if e["op"] == "inspect" and not e.get("raised") and e.get("pep") is not None:
+                    key = (e["pep"]["vh"], e["pep"]["sh"])
+                    if e["level"] >= 2 and e["viol"] != [9]:
+                        seen.setdefault(key, set()).add(e["agent"])
+                    elif e["viol"] and any(k != e["agent"] for k in seen.get(key, ())):
+                        ks.append("anomaly-with-hashes-remembered-about-another-agent")
+        else:
+            ks = [("public-api-case" if case["tcell"] is None and all(o[0] in API_OPS for o in case["ops"]) else "window-case")
+                  if any(o[0].startswith("w_") for o in case["ops"]) else "crafted-case",
+                  f"rules={len(case['rules'])}"]
+        for tag in ("wordless", "blank", "near"):
+            if case.get(tag):
+                ks.append({"wordless": "usual-outputs-without-word-characters", "blank": "blank-hash-string",
+                           "near": "memory-entries-about-near-identical-ids"}[tag])
         for e in trace["events"]:
             if e["op"] == "inspect":
                 if e.get("raised"):
@@ -1718,6 +2309,14 @@ class C17(Check):
                 cfv, rtv = e["pep"]["cf"], e["pep"]["rt"]
                 ks.append("trained-window:confidence" + ("<0" if cfv < 0 else (">1" if cfv > 1 else "-in-[0,1]")))
                 ks.append("trained-window:latency" + ("<0" if rtv < 0 else ("=0" if rtv == 0 else ">0")))
+                intern = (self._resolve_world(case) if case.get("world") else self._resolve(case))[1]
+                if intern.get("d41d8cd98f00") is not None:       # md5 of the empty string: no word / no structure at all
+                    if e["pep"]["vh"] == intern["d41d8cd98f00"]:
+                        ks.append("trained-window:empty-vocabulary")
+                    if e["pep"]["sh"] == intern["d41d8cd98f00"]:
+                        ks.append("trained-window:no-structure")
+                if e["pep"]["vh"] == 0 or e["pep"]["sh"] == 0:
+                    ks.append("trained-window:blank-hash-string")
         for c in case["rules"]:
             if c[1][0] in ("recent", "tolerated"):
                 ks.append("rule-reads-record:" + c[1][0])
